@@ -31,6 +31,7 @@ for a in "$@"; do [ "$a" = "--replay" ] && exit 0; done
 case "$ID" in
   C03) TARGETS="server_finish" ;;
   C04) TARGETS="login_response" ;;
+  C07) TARGETS="history" ;;
   C08) TARGETS="server_start" ;;
   C10|C11) TARGETS="decoders" ;;
   C12) TARGETS="decoders server_start" ;;
@@ -38,22 +39,25 @@ case "$ID" in
 esac
 EV="$HERE/evidence/$ID.json"
 # (1) committed corpus (seeds + every minimised past failure) through the stable production-profile binary
-NFILES=0
+NFILES=0; HS=""
 for TARGET in $TARGETS; do
   OUT="$(VERIF_FUZZ_PROPERTY=$ID "$VC" fuzz-replay --suite "$TARGET" --replay "$HERE/corpus/$TARGET" --verif-dir "$HERE")"
   frc=$?
-  echo "$OUT" | grep -E "^(VIOLATION|FUZZ-REPLAY|INCONCLUSIVE)"
+  echo "$OUT" | grep -E "^(VIOLATION|FUZZ-REPLAY|INCONCLUSIVE|HISTORY-STATS)"
   n=$(echo "$OUT" | sed -n 's/.*files=\([0-9]*\).*/\1/p' | tail -1); NFILES=$((NFILES + ${n:-0}))
+  h=$(echo "$OUT" | sed -n 's/^HISTORY-STATS //p'); [ -n "$h" ] && HS="$h"
   [ $frc -eq 0 ] || exit $frc
 done
 if [ -f "$EV" ]; then
-  jq --arg t "$TARGETS" --argjson n "$NFILES" '.coverage.corpus_replay = {targets: $t, files: $n, profile: "production (stable, release)"}' "$EV" > "$EV.tmp" && mv "$EV.tmp" "$EV"
+  jq --arg t "$TARGETS" --argjson n "$NFILES" --arg hs "$HS" '.coverage.corpus_replay = ({targets: $t, files: $n, profile: "production (stable, release)"} + (if $hs == "" then {} else {history_contents: $hs} end))' "$EV" > "$EV.tmp" && mv "$EV.tmp" "$EV"
 fi
 [ "$TIER" = "thorough" ] || exit 0
 
 # (2) coverage-guided campaigns (libFuzzer via cargo-fuzz, nightly), fixed work
 RUNS="${VERIF_FUZZ_RUNS:-1000000}"; PROCS="${VERIF_FUZZ_PROCS:-8}"
-if ! cargo +nightly fuzz build --fuzz-dir "$HERE/fuzz" >/tmp/vfuzz-build.$$ 2>&1; then
+# -O -s none: no debug assertions, no ASan.  A crash only counts when the stable production-profile
+# binary reproduces it for this property, so neither would add a finding, and both cost 5-7x throughput.
+if ! cargo +nightly fuzz build --fuzz-dir "$HERE/fuzz" -O -s none >/tmp/vfuzz-build.$$ 2>&1; then
   echo "INCONCLUSIVE property=$ID the fuzz targets do not build (cargo +nightly fuzz); last lines:"; tail -n 15 /tmp/vfuzz-build.$$; rm -f /tmp/vfuzz-build.$$
   exit 2
 fi
@@ -66,6 +70,8 @@ for TARGET in $TARGETS; do
   BIN="$HERE/fuzz/target/x86_64-unknown-linux-gnu/release/$TARGET"
   # server_start runs a full ServerLogin::start per input (about 10 ms on the P-521 suites)
   TRUNS="$RUNS"; [ "$TARGET" = "server_start" ] && TRUNS=$((RUNS / 6))
+  # history runs up to 40 protocol operations per input (20-60 inputs/s per process)
+  [ "$TARGET" = "history" ] && TRUNS=$((RUNS / 64))
   pids=""
   for i in $(seq 1 "$PROCS"); do
     mkdir -p "$WORK/$TARGET/c$i" "$WORK/$TARGET/a$i"
@@ -91,7 +97,7 @@ for TARGET in $TARGETS; do
 done
 if [ -f "$EV" ]; then
   jq --arg t "$TARGETS" --argjson e "$TOTAL" --argjson p "$PROCS" --argjson r "$RUNS" --argjson v "$viol" --argjson d "$other" \
-     '.coverage.fuzz = {engine: "libFuzzer (cargo-fuzz, nightly)", targets: $t, processes_per_target: $p, runs_per_process: $r, executions: $e, confirmed_violations: $v, crashes_not_reproduced_on_production_profile_or_other_property: $d} | .coverage.evaluations += $e' \
+     '.coverage.fuzz = {engine: "libFuzzer (cargo-fuzz, nightly, -O, no sanitizer)", targets: $t, processes_per_target: $p, runs_per_process: $r, executions: $e, confirmed_violations: $v, crashes_not_reproduced_on_production_profile_or_other_property: $d} | .coverage.evaluations += $e' \
      "$EV" > "$EV.tmp" && mv "$EV.tmp" "$EV"
 fi
 echo "FUZZ targets=$TARGETS processes=$PROCS executions=$TOTAL confirmed_violations=$viol other_crashes=$other"
